@@ -278,6 +278,45 @@ func (r *run) walker(addOffset int64, nStopVariants int) (reported []visited) {
 					reported = vis
 				}
 			}
+			if variant > 0 {
+				// the callback's answer "do not continue" prunes exactly the subtree below that node
+				var want []*gnode
+				for _, n := range r.gt.all {
+					pruned := false
+					for a := n.parent; a != nil; a = a.parent {
+						pruned = pruned || stop[a.f]
+					}
+					if !pruned {
+						want = append(want, n)
+					}
+				}
+				same := len(want) == len(vis)
+				for i := 0; same && i < len(vis); i++ {
+					same = vis[i].f == want[i].f
+				}
+				if same {
+					ctx.OracleOK()
+				} else {
+					first := -1
+					for i := 0; i < len(vis) && i < len(want); i++ {
+						if vis[i].f != want[i].f {
+							first = want[i].idx
+							break
+						}
+					}
+					if first < 0 && len(vis) < len(want) {
+						first = want[len(vis)].idx
+					}
+					var stops []int
+					for _, n := range r.gt.all {
+						if stop[n.f] {
+							stops = append(stops, n.idx)
+						}
+					}
+					ctx.OracleFail(idx, fmt.Sprintf("callback answered 'stop' at %d node(s): it was then invoked for %d nodes, the tree without the subtrees below those nodes has %d (first difference at node #%d)", len(stops), len(vis), len(want), first), siteWalker,
+						map[string]interface{}{"image": r.im.name, "fallback": fb, "stop_at_nodes": stops})
+				}
+			}
 			var bad, known []string
 			for i, v := range vis {
 				n := r.gt.byFW[v.f]
@@ -518,6 +557,37 @@ func (r *run) selectors(reported []visited) {
 		r.checkSelector("UEFIGUIDFirst", "pkg/bootflow/datasources/uefi_guid.go", in, byGUID[gs], d, derr, bi, true)
 	}
 
+	// UEFIGUIDFirst with several GUIDs: the first one that selects something wins
+	if len(guids) >= 2 {
+		absent, _ := fianoGUID.Parse("DEADBEEF-0000-4000-8000-00000000C014")
+		for i := 0; i < 4; i++ {
+			a, b := guids[ctx.Rng.Intn(len(guids))], guids[ctx.Rng.Intn(len(guids))]
+			ga, e1 := fianoGUID.Parse(a)
+			gb, e2 := fianoGUID.Parse(b)
+			if e1 != nil || e2 != nil {
+				continue
+			}
+			ds := datasources.UEFIGUIDFirst{*ga, *gb}
+			want := byGUID[a]
+			if i%2 == 1 {
+				ds = datasources.UEFIGUIDFirst{*absent, *gb}
+				want = byGUID[b]
+			}
+			if _, unknown, _ := r.expectedFB(byGUID[a]); unknown && i%2 == 0 {
+				continue // the first GUID fails: covered by the single-GUID checks
+			}
+			st, bi := r.newState()
+			var d *types.Data
+			var derr error
+			in := map[string]interface{}{"guids": ds.String()}
+			if p, msg := gal.Recover(func() { d, derr = ds.Data(bg, st) }); p {
+				ctx.OracleFail(-1, "UEFIGUIDFirst panicked: "+msg, "pkg/bootflow/datasources/uefi_guid.go", in)
+				continue
+			}
+			r.checkSelector("UEFIGUIDFirst", "pkg/bootflow/datasources/uefi_guid.go", in, want, d, derr, bi, true)
+		}
+	}
+
 	// ---- files by type / by name
 	byType := map[fianoUEFI.FVFileType][]*gnode{}
 	var typesSeen []int
@@ -563,7 +633,11 @@ func (r *run) selectors(reported []visited) {
 			ctx.OracleOK()
 		}
 	}
-	for _, ni := range r.pick(len(names), lim(6, 80)) {
+	nameLimit := lim(6, 80)
+	if r.im.pristine {
+		nameLimit = 1 << 30
+	}
+	for _, ni := range r.pick(len(names), nameLimit) {
 		nm := names[ni]
 		st, bi := r.newState()
 		var d *types.Data
